@@ -358,7 +358,7 @@ def shrink(f):
 
     def fails_with(bs, flt=None):
         for x in check_document(bs, argv, runner.Stats(), "shrink", with_fault=flt):
-            if x.kind == f.kind:
+            if x.bucket == f.bucket:
                 return x
         return None
     if fault is not None:
